@@ -435,6 +435,40 @@ Example C07_settle_nonvacuous :
   gh s' = [Wait 101 [101; 102; 103] [StoppedE 101 19; Exited 102 4; Signaled 103 9]].
 Proof. vm_compute. repeat split. Qed.
 
+(** The oracle loop of Model/WaitTerm.v (= [Term.settle], C07_settle_is_oracle_wait) and
+    C06's [Jobs.wait_fg_job] / [Jobs.wait_loop] (tied in-process by C06's harness) are one
+    function: on the same statuses, from the same shell value (and, for the loops, the same
+    settled set and status) they stop at the same status with the same job table + parked
+    maps, the same cmd_result.status and the same statuses left; statuses running out is
+    [w_blocked] there and [WBlocked] here ([same_result]). *)
+Theorem C07_wait_o_is_jobs_wait_loop : forall c gid pids v rest ow m g evs fuel kk w we status,
+  (length evs < fuel)%nat ->
+  same_result (Jobs.wait_loop evs (shl kk) gid pids (last pids 0) (length pids) w status)
+              (wait_o c fuel (map RStatus evs) kk gid pids w v rest ow m g we status).
+Proof. exact wait_o_is_wait_loop. Qed.
+Check C07_wait_o_is_jobs_wait_loop : forall c gid pids v rest ow m g evs fuel kk w we status,
+  (length evs < fuel)%nat ->
+  same_result (Jobs.wait_loop evs (shl kk) gid pids (last pids 0) (length pids) w status)
+              (wait_o c fuel (map RStatus evs) kk gid pids w v rest ow m g we status).
+
+Theorem C07_wait_fg_o_is_jobs_wait_fg_job : forall c gid pids v rest ow m g evs fuel kk,
+  (length evs < fuel)%nat ->
+  same_result (Jobs.wait_fg_job (shl kk) gid pids evs)
+              (wait_fg_o c fuel (map RStatus evs) kk gid pids v rest ow m g).
+Proof. exact wait_fg_o_is_wait_fg_job. Qed.
+
+(** C06's model has no ECHILD answer (running out of statuses is what the injection hook
+    turns into ECHILD): where [Jobs.wait_loop] ends blocked, the oracle loop given the
+    same statuses and then ECHILD returns with that shell and that status. *)
+Theorem C07_wait_o_echild_is_jobs_blocked : forall c gid pids v rest ow m g evs fuel kk w we status post,
+  (length evs < fuel)%nat ->
+  w_blocked (Jobs.wait_loop evs (shl kk) gid pids (last pids 0) (length pids) w status) = true ->
+  exists s',
+    wait_o c fuel (map RStatus evs ++ REchild :: post) kk gid pids w v rest ow m g we status =
+      WReturned s' (w_status (Jobs.wait_loop evs (shl kk) gid pids (last pids 0) (length pids) w status)) post /\
+    shl (k s') = w_sh (Jobs.wait_loop evs (shl kk) gid pids (last pids 0) (length pids) w status).
+Proof. exact wait_o_echild_is_blocked. Qed.
+
 Print Assumptions C07_prompt_owner.
 Print Assumptions C07_owner_cases.
 Print Assumptions C07_bg_never_owner.
@@ -453,3 +487,6 @@ Print Assumptions C07_wait_returns_settled_fg.
 Print Assumptions C07_kernel_K4.
 Print Assumptions C07_kernel_truthful.
 Print Assumptions C07_settle_returns_settled.
+Print Assumptions C07_wait_o_is_jobs_wait_loop.
+Print Assumptions C07_wait_fg_o_is_jobs_wait_fg_job.
+Print Assumptions C07_wait_o_echild_is_jobs_blocked.
